@@ -130,7 +130,54 @@ def check_site(ctx, S):
                 ok_any = True
         if not ok_any:
             ctx.violate(R2, S.fn, "%s honours return_all_logprobs" % q, "no `return samples, <all ln-likelihoods>` branch", key=q + ":all-missing")
+        # the evaluated array is handed out (and indexed for the ln_likelihood column) as computed: nothing writes into it in between
+        ws = A.storage_writes(S.fn, lambda e: isinstance(e, ast.Call) and (A.call_name(e) or "").split(".")[-1].startswith("marginal_ln_likelihood"))
+        ctx.check(R2, ws[0][0] if ws else S.fn, "%s: the evaluated likelihood array is not overwritten" % q, not ws,
+                  (ws[0][1] if ws else "").replace("the input", "the evaluated likelihood array") + ": what is returned under return_all_logprobs / stored as ln_likelihood is no longer the ln-likelihood", key=q + ":all-inplace")
     ctx.notes.append({q: {"rows": A.unparse(Rsel)[:120], "identity_map": identity, "note": n_linear_note}})
+
+
+def check_mapcond(ctx, S):
+    """file rejection sampler: rows are addressed through the row map M exactly when the likelihoods were evaluated on M"""
+    R = "C06-SPACE"
+    q = S.name
+    ra = rows_arg(S)
+    evs = [c for c in A.calls_in(S.fn) if (A.last_attr(c) or "") == "marginal_ln_likelihood_helper"]
+    if ra is None or ra[1] is None or len(evs) != 1:
+        ctx.undecided(R, S.fn, "%s: evaluation order and row map" % q, "likelihood evaluation or make_full_samples call not recognised")
+        return
+    ek = A.effective_kwargs(evs[0], S.fn, S.flow)
+    if ek is None:
+        ctx.undecided(R, evs[0], "%s: keywords of the likelihood evaluation" % q, "** arguments cannot be read")
+        return
+    alts = []
+    for terms, val, at in ek.get("samples_idx", []):
+        v = S.flow.resolve(val, at=at)
+        for t2, leaf in A.ifexp_terms(v):
+            if isinstance(leaf, ast.Constant) and leaf.value is None:
+                continue
+            alts.append((A.conj(list(terms) + list(t2)), canon(leaf)))
+    call, rows, kind = ra
+    for terms, leaf in A.ifexp_terms(rows):
+        sh = _rej.idx_shape(leaf)
+        if len(sh) != 1 or sh[0][0] == "other":
+            continue   # reported by the shape clause
+        sh = sh[0]
+        c = A.conj(list(terms) + A.path_condition(A.enclosing_stmt(call), S.fn))
+        if sh[0] == "M[G]":
+            m = canon(sh[1])
+            same = [t for t, mm in alts if mm == m]
+            cover = ("or", frozenset(same)) if len(same) != 1 else same[0]
+            ok = bool(same) and A.nnf_implies(c, cover)
+            why = "rows are looked up through `%s` under %s, but the likelihoods were evaluated in that order only under %s: in the remaining cases position i of the " \
+                  "likelihood array is row i, not row M[i]" % (A.unparse(sh[1])[:40], A.term_strings([c]), [A.term_strings([t]) for t in same])
+            ctx.check(R, call, "%s: rows go through the row map only when the evaluation used it" % q, ok, why, key=q + ":map-if-eval")
+        else:
+            ok = all(A.nnf_implies(c, A.nnf_not(t)) for t, _ in alts)
+            bad = [A.term_strings([t]) for t, _ in alts if not A.nnf_implies(c, A.nnf_not(t))]
+            ctx.check(R, call, "%s: accepted positions are used as row numbers only when the evaluation ran on the first rows" % q, ok,
+                      "under %s the accepted positions are used as library rows although the likelihoods may have been evaluated on a row map (under %s): "
+                      "the returned rows are not the accepted ones" % (A.term_strings([c]), bad), key=q + ":eval-if-map")
 
 
 def _is_identity_map(M):
@@ -243,6 +290,8 @@ def run(ctx):
     for mod, name in _rej.SITES:
         S = _rej.analyze(ctx.prog, mod, name)
         check_site(ctx, S)
+        if name == "rejection_sample_helper":
+            check_mapcond(ctx, S)
         n += 1
     ctx.floor("C06-SPACE", n, 4)
     check_inmem_api(ctx)
